@@ -25,7 +25,7 @@ FuncNamed(gen, n) == gen.funcs[CHOOSE i \in DOMAIN gen.funcs : gen.funcs[i].name
 Buildable(d, cfg) == {T \in Selected(d, cfg) : BuildRoot(d, cfg, T).ok}
 Poisoned(d, cfg) == Selected(d, cfg) \ Buildable(d, cfg)
 
-TargetPackage(d, cfg) == IF cfg.separate THEN "tfout" ELSE d.pkg
+TargetPackage(d, cfg) == IF cfg.separate /\ ~cfg.samename THEN "tfout" ELSE d.pkg
 
 \* C01: the response and the file as a whole (d, cfg inside D: every selected type is buildable)
 C01Run(d, cfg, gen) ==
@@ -68,11 +68,11 @@ C16Fault(cfg, gen) ==
   ELSE {}
 
 \* C13: the separate-package layout compiles and imports the struct package under a qualifier
-C13Run(cfg, gen) ==
+C13Run(d, cfg, gen) ==
   IF ~cfg.separate THEN {}
   ELSE (IF gen.exit # 0 \/ gen.compile # "" THEN {VG("C13.compiles", gen.key)} ELSE {})
        \cup (IF ~\E i \in DOMAIN gen.imports : gen.imports[i] = gen.structimport THEN {VG("C13.qualified_import", gen.key)} ELSE {})
-       \cup (IF gen.package # "tfout" THEN {VG("C13.package", gen.key)} ELSE {})
+       \cup (IF gen.package # TargetPackage(d, cfg) THEN {VG("C13.package", gen.key)} ELSE {})
 
 \* alternative renderings of the same run (other channel split, permuted entry order, plain repetition,
 \* permuted declaration order): C14 compares the raw response bytes, C15 / C16 the generated file
